@@ -50,7 +50,7 @@ KNOWN_OPT = "C01-optimizer-unpaired-store"
 _PROBE = []
 
 
-def default_options_run(acc, recipe, v, ctxs, refs, origin, ss):
+def default_options_run(acc, recipe, v, ctxs, refs, origin, ss, fp=None, known_id=None):
     """The same recipe compiled the way a user who passes no options gets it at v9+ (scratch-slot optimisation on), or with the
     optimisation requested explicitly.  The one known optimiser defect is attributed exactly as in C03/C05: the probe on the
     deletion routine saw more stores than loads deleted AND the mismatch disappears when deletion is restricted to paired accesses."""
@@ -60,7 +60,8 @@ def default_options_run(acc, recipe, v, ctxs, refs, origin, ss):
         _PROBE.append(c03.OptProbe())
     probe = _PROBE[0]
     probe.reset()
-    c = rcase.compile_recipe(recipe, v, recipe["mode"], scratch_slots=ss)
+    known_id = known_id or KNOWN_OPT
+    c = rcase.compile_recipe(recipe, v, recipe["mode"], scratch_slots=ss, frame_pointers=fp)
     unpaired = c03.known_mechanism(probe.events)
     deleted = sum(ns + nl for ns, nl in probe.events)
     if c.prog is None:
@@ -87,7 +88,7 @@ def default_options_run(acc, recipe, v, ctxs, refs, origin, ss):
     mech = None
     if unpaired:
         probe.reset(neutralise=True)
-        c2 = rcase.compile_recipe(recipe, v, recipe["mode"], scratch_slots=ss)
+        c2 = rcase.compile_recipe(recipe, v, recipe["mode"], scratch_slots=ss, frame_pointers=fp)
         probe.reset()
         if c2.prog is not None:
             ok = True
@@ -98,10 +99,10 @@ def default_options_run(acc, recipe, v, ctxs, refs, origin, ss):
                 if not g2.dropped and not (rcase.is_resource(g2) and ref.status != "fail") and rcase.compare(ref, g2):
                     ok = False
             if ok:
-                mech = KNOWN_OPT
+                mech = known_id
     cd, diffs = bad[0]
-    acc.violation("outcome_mismatch", {"recipe": recipe, "version": v, "ctx": cd, "origin": origin, "scratch_slots": ss, "optimizer_unpaired": unpaired, "mechanism": mech},
-                  "with scratch-slot optimisation on (scratch_slots=%s at v%d): %s" % (ss, v, "; ".join(diffs)[:800]), teal=c.teal[-3000:])
+    acc.violation("outcome_mismatch", {"recipe": recipe, "version": v, "ctx": cd, "origin": origin, "scratch_slots": ss, "frame_pointers": fp, "optimizer_unpaired": unpaired, "mechanism": mech},
+                  "with scratch-slot optimisation on (scratch_slots=%s frame_pointers=%s at v%d): %s" % (ss, fp, v, "; ".join(diffs)[:800]), teal=c.teal[-3000:])
 
 
 def classify(v):
